@@ -340,3 +340,35 @@ pub fn typed_element(r: &mut Rng, vr: &str) -> J {
     if r.chance(1, 6) { m.swap(0, 1); }
     J::Obj(vec![(format!("{:08X}", r.next() as u32), J::Obj(m))])
 }
+
+/// canonical data sets: what the deserialiser itself produces (the round trip must be the identity)
+pub fn rand_prim_canon(r: &mut Rng, vr: VR) -> MPrim {
+    if r.chance(1, 10) { return MPrim::Empty; }
+    let n = 1 + r.below(3) as usize;
+    let clean = |s: String, name: bool| -> String {
+        let mut s: String = s.replace('\\', "/");
+        while s.ends_with(' ') || s.ends_with('\0') || (name && s.ends_with('=')) { s.pop(); }
+        s
+    };
+    if is_str_vr(vr) { return MPrim::Strs((0..n).map(|_| clean(rand_string(r), false)).collect()); }
+    if vr == VR::PN { return MPrim::Strs((0..n).map(|_| clean(if r.chance(3, 4) { r.pick(NAMES).to_string() } else { rand_string(r) }, true)).collect()); }
+    if vr == VR::AT { return MPrim::Tags((0..n).map(|_| r.next() as u32).collect()); }
+    if is_bin_vr(vr) { let m = 1 + r.below(7) as usize; return MPrim::Int(IK::U8, (0..m).map(|_| r.below(256) as i128).collect()); }
+    match vr {
+        VR::FL => MPrim::F32((0..n).map(|_| { let b = rand_f32(r); if f32::from_bits(b).is_nan() { 0x7fc0_0000 } else { b } }).collect()),
+        VR::FD => MPrim::F64((0..n).map(|_| { let b = rand_f64(r); if f64::from_bits(b).is_nan() { 0x7ff8_0000_0000_0000 } else { b } }).collect()),
+        VR::DS | VR::IS => MPrim::Strs((0..n).map(|_| r.pick(NUMTEXT).to_string()).collect()),
+        _ => { let k = native_kind(vr).unwrap(); MPrim::Int(k, (0..n).map(|_| rand_int(r, k)).collect()) }
+    }
+}
+pub fn rand_ds_canon(r: &mut Rng, depth: u32, max_elems: usize) -> MDs {
+    let n = r.below(max_elems as u64 + 1) as usize;
+    MDs(rand_tags(r, n).into_iter().map(|t| {
+        let vr = if depth > 0 && r.chance(1, 8) { VR::SQ } else { *r.pick(&ALL_VRS) };
+        let v = if vr == VR::SQ {
+            let m = if depth == 0 { 0 } else { r.below(3) as usize };
+            MValue::Seq((0..m).map(|_| rand_ds_canon(r, depth - 1, 3)).collect())
+        } else { MValue::Prim(rand_prim_canon(r, vr)) };
+        (t, vr, v)
+    }).collect())
+}
